@@ -183,6 +183,19 @@ fn syn_test(h: &c05::History, obs: &mut Obs) -> CheckResult {
                 let t = catch(|| state.target_hop(*id).ttl()).map_err(|p| Fail::new(panic_sig(&p), format!("target_hop({}) panicked: {p}", id.0)))?;
                 vensure!(t == last.largest_ttl, "flow-target-hop", "flow {}: target_hop().ttl() = {t} but the latest round attributed to it reported path length {}", id.0, last.largest_ttl);
             }
+            let l = last.largest_ttl;
+            let (is_t, in_r): (Vec<u8>, Vec<u8>) = catch(|| {
+                let hops = state.hops_for_flow(*id);
+                (
+                    hops.iter().filter(|h| state.is_target(h, *id)).map(trippy_core::Hop::ttl).collect(),
+                    hops.iter().filter(|h| h.ttl() != 0 && state.is_in_round(h, *id)).map(trippy_core::Hop::ttl).collect(),
+                )
+            })
+            .map_err(|p| Fail::new(panic_sig(&p), format!("is_target / is_in_round for flow {} panicked: {p}", id.0)))?;
+            let want_t: Vec<u8> = if l > 0 { vec![l] } else { vec![] };
+            let want_r: Vec<u8> = expect.iter().copied().filter(|t| *t != 0 && *t <= l).collect();
+            vensure!(is_t == want_t, "flow-is-target", "flow {}: is_target() holds for {is_t:?}, expected {want_t:?}", id.0);
+            vensure!(in_r == want_r, "flow-in-round", "flow {}: is_in_round() holds for {in_r:?}, expected {want_r:?}", id.0);
         }
         if rounds.len() >= 2 {
             obs.class("flow-with-several-rounds");
